@@ -28,7 +28,7 @@ _m("C16",
    "check_prior must be non-finite and the posterior -inf.  A case is non-trivial when it has a value within 1e-3 "
    "(relative) of a boundary, or outside the support, or >= 2 parameters; distinct by canonical JSON hash.",
    _COMMON + ["values are passed as numpy float64 (as emcee and the suite pass them)",
-              "reference log-densities below -600 are not generated (density underflow is a range limit, not the property)"])
+              "reference log-densities below -300 are not compared (the density's factors underflow or become subnormal there: a range limit, not the property)"])
 
 _m("C01",
    "(a) enumeration: every built-in propensity type x every reactant multiset of order 0..4 over 3 species (both "
